@@ -437,7 +437,9 @@ func checkC07(c c07Case, ctx *vCtx) *vFailure {
 	return nil
 }
 
-func vValidUTF8(s string) bool { return strings.ToValidUTF8(s, "�") == s && !strings.Contains(s, "�") }
+func vValidUTF8(s string) bool {
+	return strings.ToValidUTF8(s, "�") == s && !strings.Contains(s, "�")
+}
 
 // vQuoteMeta escapes regular-expression metacharacters (own implementation).
 func vQuoteMeta(s string) string {
